@@ -114,6 +114,9 @@ impl Sink {
         writeln!(self.w, "{}", v).unwrap();
         self.n += 1;
     }
+    pub fn flush(&mut self) {
+        self.w.flush().unwrap();
+    }
     pub fn finish(mut self) -> u64 {
         self.w.flush().unwrap();
         self.n
